@@ -138,7 +138,7 @@ def run(ctx, scale=1):
     ctx.extra['rule'] = ('polygon/polyhedron pairs in both orders over 9 templates: ' + ', '.join(TEMPLATES) +
                          ' (bodies = lattice hulls or affine images of box/prism/pyramid/octahedron/tetrahedron, vertex and face order shuffled); '
                          'non-trivial = non-empty exact intersection; generic irrational poses are NOT generated (exact model takes rational input only)')
-    ctx.extra['unproved'] = ['K2 coplanarClip_exact', 'K3 planeCutPolyhedron_exact', 'K4 assemble_exact', 'K6 sortCCW_valid']
+    ctx.extra['unproved'] = ['K4: completeness of the polyhedron × polyhedron assembly (soundness proved; polygon × polygon and polygon × polyhedron proved exact) — decided per run against exact vertex enumeration']
     total = ctx.n(480, 12000) * scale
     cases = []
     for part in core.pmap(work, core.chunks(ctx, total, per=15)):
@@ -149,6 +149,20 @@ def run(ctx, scale=1):
             # measures of the result: volume of a polyhedron result against the exact hull volume
             if obs[0] == 'ok' and obs[1][0] == 'B':
                 ctx.stats['polyhedron results (volume compared through the vertex set)'] += 1
+    # hypotheses of the exactness theorems on both operands, and admissibility (ExactHyp ∧ Valid) of every composite RESULT,
+    # judged by Lean: the part of C03 that is not a theorem (the assembled body is Valid again) is decided here per case
+    hyp = core.model_lines(['interhyp %s %s' % (tok(A), tok(B)) for A, B, _, _ in cases])
+    for (A, B, cls, obs), h in zip(cases, hyp):
+        w = h.split()
+        if len(w) == 5 and w[0] == 'operands':
+            ctx.dist['hypotheses on operands %s' % ('hold' if w[1] == w[2] == 'true' else 'FAIL')] += 1
+            if w[4] != 'na':
+                ctx.dist['composite result admissible again: %s' % w[4]] += 1
+                if w[4] == 'false' and w[1] == w[2] == 'true':
+                    ctx.violation('result-not-admissible ' + tok(A) + ' ' + tok(B), 'intersection(%s, %s): the model result is not a Valid polygon / closed convex polyhedron without coplanar neighbours (Lean judges validB, exactHypB)' % (tok(A)[:150], tok(B)[:150]),
+                                  dict(a=gen.jsonable(list(A)), b=gen.jsonable(list(B))))
+        else:
+            ctx.dist['hypotheses: ' + h[:30]] += 1
     for A, B, cls, obs in cases[:4]:
         ctx.sample('intersection(%s, %s) [%s] -> %s' % (tok(A)[:150], tok(B)[:150], cls, interlib.describe_obs(obs)))
     interlib.finish_model_check(ctx)
